@@ -25,27 +25,29 @@ RULE = ('block op sequences (validate/get/set/reset/dump) over sequential blocks
 _SHARED_INIT = {}     # an application's "factory defaults": ONE list object per distinct initial content, reused for every block
 
 
-def shared_init(values):
+def shared_init(values, pybool=False):
     """the list object handed to every sequential block that starts from these values.  A block must own its cells: whatever
-    is written into one block must never show up in this list (or in another block built from it)."""
-    key = tuple(values)
+    is written into one block must never show up in this list (or in another block built from it).  pybool: the initial
+    values are Python bools (False / True) instead of ints."""
+    key = (bool(pybool), tuple(int(v) for v in values))
     if key not in _SHARED_INIT:
         if len(_SHARED_INIT) > 4000:
             _SHARED_INIT.clear()
-        _SHARED_INIT[key] = list(values)
+        _SHARED_INIT[key] = [bool(v) for v in values] if pybool else list(values)
     return _SHARED_INIT[key]
 
 
 def shared_init_intact():
     """[] or the initial contents whose shared list no longer holds them (a block wrote through to it)"""
-    return [list(k) for k, v in _SHARED_INIT.items() if list(k) != v]
+    return [list(k[1]) for k, v in _SHARED_INIT.items() if list(k[1]) != [int(x) for x in v]]
 
 
 def mk_block(desc):
     if desc['kind'] == 'default':
         return ModbusSequentialDataBlock.create()
     if desc['kind'] == 'seq':
-        return ModbusSequentialDataBlock(desc['address'], shared_init(desc['values']))
+        pyb = bool(desc.get('pybool')) and all(v in (0, 1) for v in desc['values'])
+        return ModbusSequentialDataBlock(desc['address'], shared_init(desc['values'], pyb))
     return ModbusSparseDataBlock(dict((k, v) for k, v in desc['items']))
 
 
